@@ -560,9 +560,30 @@ func init() {
 		// the answer of a seek is a function of the table and the key only: nothing on
 		// the read path may write state a later seek on the same Reader could observe
 		copyStateless(p, r, "SEEK-STATELESS", "a seek can depend on the Reader's history", "shared *Merged", "Merged / ")
-		r.Engines = []string{"pathsim", "typestate", "dtable", "effects"}
+		// the restart table is addressed correctly: the index and slice obligations of the
+		// block reader's seek helpers (offset arithmetic that wraps in a narrow type reads
+		// a misaligned restart offset long before it panics)
+		func() {
+			r2 := newReport(r.Property, r.Tier, r.Seed)
+			guarded(r, []string{"RESTART-ARITH"}, func() { checkBounds(p, r2) })
+			n := 0
+			for k, o := range r2.Obl {
+				if o.Rule != "BOUNDS" || !strings.Contains(k, "(*blockReader)") {
+					continue
+				}
+				n++
+				key := strings.TrimPrefix(k, "BOUNDS / ")
+				if v, bad := r2.Viol[k]; bad {
+					r.violate("RESTART-ARITH", key, v.Where, v.Message, v.Witness)
+				} else {
+					r.ok("RESTART-ARITH", key, o.Note)
+				}
+			}
+			r.floor("RESTART-ARITH", n, 5, "index and slice obligations in the block reader's seek helpers")
+		}()
+		r.Engines = []string{"pathsim", "typestate", "dtable", "effects", "bounds"}
 		r.Explanation = "Index construction typestate in the writer (path-sensitive simulation with the block writer modelled as nil / empty / non-empty and flushBlock, finishSection replaced at their call sites by summaries that are verified against their bodies in the same run): the current block writer is replaced only when it is nil, empty or flushed (no index block is lost), every successful exit of a section leaves the pending index empty and no unflushed block (no entry leaks into the next section), the index entry of a block records the offset before it is advanced. Decision tables of the reader's seek: in-block scan stops exactly at the first key not smaller and returns the position before it, restart predicate, block skipping of the linear seek, index descent (return a child only of the wanted type and positioned, descend only into index blocks), and only the table iterator advances its own block iterator (reads roll over to the next block)."
-		r.NotDecided = []string{"that seek followed by scan equals the scan suffix for a given table (needs the arithmetic of block offsets, padding and restart positions)", "contents of multi-level indexes", "restart offset arithmetic"}
+		r.NotDecided = []string{"that seek followed by scan equals the scan suffix for a given table (needs the arithmetic of block offsets, padding and restart positions)", "contents of multi-level indexes", "restart offset arithmetic beyond range and wrap-around of the index expressions (RESTART-ARITH)"}
 		r.Assumptions = []string{"blockWriter.add returning true means the record was appended to the current block", "iterator Next fills the record passed to it"}
 	}
 }
